@@ -33,13 +33,14 @@ def c10Sec (s : String) : Option Sec :=
 
 def c10Range (a b : String) : Option Range := do pure (← a.toInt?, ← b.toInt?)
 
-/-- `-` or `+`-joined parts `tr:t0:t1`, `sr:n/d:n/d`, `tw:time:endtime` -/
+/-- `-` or `+`-joined parts `tr:t0:t1`, `sr:n/d:n/d`, `tw:time:endtime`, `rs:<start of the run document, s>` -/
 def c10TimeArgs (s : String) : Option TimeArgs :=
   (splitList s "+").foldlM (fun (acc : TimeArgs) tok =>
     match tok.splitOn ":" with
     | ["tr", a, b] => do pure { acc with timeRange := some (← c10Range a b) }
     | ["sr", a, b] => do pure { acc with secondsRange := some (← c10Sec a, ← c10Sec b) }
     | ["tw", a, b] => do pure { acc with timeWithin := some (← c10Range a b) }
+    | ["rs", a] => do pure { acc with runDocStartS := some (← a.toInt?) }
     | _ => none) {}
 
 def c10Mode (s : String) : Option Mode :=
